@@ -25,7 +25,7 @@ static const char *z_opname(int k)
 enum { CF_ES, CF_JUNK, CF_RAND, CF_MAXN };
 
 #define MAXN 70100
-#define MAXES 24
+#define MAXES 520
 
 static unsigned char *arr, *scratch, *ref;      /* ref: harness copy (real heap) */
 static size_t es, n, kb;
@@ -313,6 +313,7 @@ static void z_exec(const plan_t *p)
                                                ((uint64_t)1 << 33) + 1, (uint64_t)1 << 40, 3000000000ull, 1500000000ull, ((uint64_t)1 << 62) / 24 };
             uint64_t target; int present;
             vcount = counts[o->a[0] % 10]; vbase = (uintptr_t)0x10000000u * 16;       /* never dereferenced */
+            if (vcount > ((uint64_t)1 << 62) / es) vcount = ((uint64_t)1 << 62) / es;  /* the array must fit into the address space */
             switch (o->a[1] % 6) {
             case 0: target = 0; break; case 1: target = vcount - 1; break; case 2: target = vcount / 2 + 1; break;
             case 3: target = vcount - 1 - o->a[2] % 1000; break; case 4: target = vcount + o->a[2] % 1000; break;     /* absent: above every element */
@@ -400,7 +401,7 @@ static void z_exec(const plan_t *p)
 
 static void z_gen(prng_t *r, int mode, plan_t *p)
 {
-    static const int sizes[] = { 1, 2, 4, 8, 1, 2, 4, 8, 3, 5, 16, 24 };
+    static const int sizes[] = { 1, 2, 4, 8, 1, 2, 4, 8, 3, 5, 16, 24, 7, 12, 255, 256, 257, 300, 512 };
     int huge = prng_chance(r, 1, 400);
     int large = !huge && prng_chance(r, 1, 20), small = !large && !huge && prng_chance(r, 1, 4);
     int rounds = huge ? 1 : 1 + (int)prng_below(r, 3), q, j;
@@ -408,6 +409,7 @@ static void z_gen(prng_t *r, int mode, plan_t *p)
     p->cfg[CF_JUNK] = 1 + prng_below(r, 254);
     p->cfg[CF_RAND] = prng_below(r, 4096);
     p->cfg[CF_MAXN] = huge ? 70000 : large ? 4096 : small ? 8 : 64;
+    if (p->cfg[CF_ES] > 64) { if (huge) p->cfg[CF_ES] = 8; else if (large) p->cfg[CF_MAXN] = 300; PROBE("element_size_256_or_more"); }
     for (q = 0; q < rounds; q++) {
         op_t *o = plan_add(p, Z_FILL);
         int nf = (int)prng_below(r, 4), ns = 1 + (int)prng_below(r, 2);
